@@ -15,8 +15,9 @@ Monitors (all on the real code; every observation is a return value of a public 
                      raising at an admitted point
   hessian_fd         FreeEnergyHessian.dMudX(mu, composition set, ref) for EVERY element as reference equals the
                      central finite difference of (mu_A - mu_ref) from getLocalEq at x +- h (steps h, h/2, h/4 with
-                     h = 3.2e-2 min(x_j, x_ref); the Richardson values of (h, h/2) and (h/2, h/4) must agree to 1e-6,
-                     the latter is the oracle; otherwise the point is 'fd_unresolved' and not judged).
+                     h = 3.2e-2 min(x_j, x_ref); the Richardson values of (h, h/2) and (h/2, h/4) must agree to 5e-7;
+                     this is done for two independent step-size sets whose results must agree to 1e-6 and whose mean
+                     is the oracle; otherwise the point is 'fd_unresolved' and not judged).
                      Entry (i,j) is compared relative to sqrt(H_ii H_jj) (the natural scale of an SPD matrix),
                      tolerance 1e-4.  Rows/columns are labelled by the documented order (alphabetical, reference
                      removed).
@@ -68,10 +69,11 @@ RULE = ('cases = (database, matrix phase, thermodynamics class, element order/re
         '(x, T) candidates drawn half log-uniform, half uniform in a per-system box; a candidate is judged only if a '
         'pycalphad global equilibrium over all database phases reports the matrix as the single stable phase. A case '
         'is non-trivial when at least one admitted point has every mole fraction (reference included) > 1e-4, its '
-        'finite-difference oracle resolved (Richardson values of two step-size pairs agree to 1e-6) and all clauses applicable to the database '
-        'kind were evaluated; distinct by (system, variant, block).')
-REQUIRED_MONITORS = ['call_succeeds', 'hessian_fd', 'hessian_reference', 'hessian_symmetric', 'hessian_posdef', 'interdiff_eigen',
-                     'tracer_positive', 'tracer_rtm', 'darken_binary', 'flux_sum_zero']
+        'finite-difference oracle resolved (model smooth across the stencil, Richardson values of two step-size pairs '
+        'agree to 5e-7) and all clauses applicable to the database kind were evaluated; distinct by (system, variant, '
+        'block).')
+REQUIRED_MONITORS = ['call_succeeds', 'hessian_fd', 'hessian_reference', 'hessian_symmetric', 'hessian_posdef',
+                     'interdiff_eigen', 'tracer_positive', 'tracer_rtm', 'darken_binary', 'flux_sum_zero']
 REACH = ['thermo/FreeEnergyHessian.py:hessian', 'thermo/FreeEnergyHessian.py:totalddx',
          'thermo/FreeEnergyHessian.py:dMudX', 'thermo/FreeEnergyHessian.py:partialdMudX',
          'thermo/Mobility.py:mobility_from_composition_set', 'thermo/Mobility.py:tracer_diffusivity',
@@ -95,13 +97,16 @@ ASSUMPTIONS = [
     'equilibrium over all phases of the database (sampling density of its starting grid limits what it can see)',
     'an ordered partner phase (FCC_L12) reported with identical sublattice occupations is the disordered matrix',
     'the gas constant is accepted to four significant digits (8.3145 +- 1e-3)',
-    'finite differences of converged local equilibria are the reference for the curvature; points where two step '
-    'sizes disagree by more than 1e-6 are not judged',
+    'finite differences of converged local equilibria are the reference for the curvature; points whose Richardson '
+    'values disagree by more than 5e-7, or whose stencil crosses a surface where the Gibbs-energy model is not smooth '
+    '(magnetic transitions; fourth-difference probe on the phase record Hessian), are counted and not judged by the '
+    'finite-difference clause (the analytic reference clause still judges them)',
+    'pycalphad phase-record gradients/Hessians and symengine evaluation of the mobility expressions are trusted',
 ]
 
 # ------------------------------------------------------------------------------------------------ tolerances
-TOL_FD = 1e-4          # measured worst on the unchanged tree: see final report / evidence worst_residuals.fd_rel
-TOL_FD_CONSIST = 1e-6  # two-h consistency needed before the FD value is used as an oracle
+TOL_FD = 1e-4          # worst on the unchanged tree (quick, seeds 0,1,2,3,7): 1.7e-6, solver-noise limited
+TOL_FD_CONSIST = 5e-7  # two-h consistency needed before the FD value is used as an oracle
 TOL_SYM = 1e-8
 TOL_SMOOTH_D4 = 4e-6   # fourth difference of the analytic curvature over the widest stencil, relative, for h = 3.2e-2 x
                        # (scaled with h^4); smooth points: 1.56e-6 (ideal term) .. 2.8e-6 (concentrated magnetic bcc)
@@ -112,9 +117,10 @@ TOL_DARKEN = 1e-6
 TOL_R_ABS = 1e-3       # |R_eff - 8.3145|
 TOL_R_SAME = 1e-10     # all elements of a point show the same R_eff; compiled vs symbolic mobility
 R_NOMINAL = 8.3145
-H_REL_SETS = [[3.2e-2, 1.6e-2, 8e-3], [2.6e-2, 1.3e-2, 6.5e-3], [2.2e-2, 1.1e-2, 5.5e-3]]
-# FD step / min(x_j, x_ref): h, h/2, h/4; later sets are retries (never wider than the first: the smoothness probe
-# loses sensitivity as h^4)
+H_REL_SETS = [[3.2e-2, 1.6e-2, 8e-3], [2.6e-2, 1.3e-2, 6.5e-3], [2.9e-2, 1.45e-2, 7.25e-3], [2.2e-2, 1.1e-2, 5.5e-3]]
+# FD step / min(x_j, x_ref): h, h/2, h/4.  Two sets must resolve and agree; later sets are retries (never wider than
+# the first: the smoothness probe loses sensitivity as h^4)
+TOL_FD_PAIR = 1e-6     # agreement of the Richardson values of two independent step-size sets
 NT_XMIN = 1e-4
 
 # ------------------------------------------------------------------------------------------------ systems
@@ -213,7 +219,10 @@ def _source(sysname):
             import os
             import kawin
             root = os.path.dirname(os.path.dirname(os.path.abspath(kawin.__file__)))
-            with open(os.path.join(root, 'examples', name)) as f:
+            path = os.path.join(root, 'examples', name)
+            if not os.path.exists(path):        # scratch copies made for monitor validation hold only kawin/
+                path = os.path.join('/repo', 'examples', name)
+            with open(path) as f:
                 _SRC[sysname] = f.read()
     return _SRC[sysname]
 
@@ -449,15 +458,19 @@ def _scaled_diff(A, B, S):
 
 
 def _fd_oracle(therm, phase, els, labels, cs0, X, T, R):
-    """Three central differences D(h), D(h/2), D(h/4) -> Richardson values R01, R12.  The oracle is R12 and is
-    used only if (a) the model is smooth across the widest stencil (_model_smooth) and (b) R01 and R12 agree to
+    """Finite-difference oracle for dMudX, for every reference element.
+
+    One step-size set gives three central differences D(h), D(h/2), D(h/4) and the Richardson values R01, R12; the set
+    *resolves* if (a) the model is smooth across its widest stencil (_model_smooth) and (b) R01 and R12 agree to
     TOL_FD_CONSIST for every reference element (two-h consistency test on the extrapolated values).  The solver
-    reports chemical potentials that are sporadically off by 1e-6..1e-4 J/mol (measured against the gradient of the
-    phase's Gibbs energy at the returned state; 11 % of the calls > 1e-6, max 7e-5); such a glitch enters R01 and R12
-    with different weights, so it shows up in the consistency value.  Later step-size sets are retries.
-    -> (dict ref -> H_fd | None, consistency, reason)"""
+    reports chemical potentials that are off by 1e-6..1e-4 J/mol in 11 % of the calls (measured against the gradient
+    of the phase's Gibbs energy at the returned state; the reported potentials lag the reported site fractions by one
+    damped Newton step); such a glitch enters R01 and R12 with different weights and shows up in the consistency
+    value, but combinations of glitches were seen to leave 3.7e-6 with a consistency of 5e-7 once in 150 000
+    evaluations.  Therefore TWO independent step-size sets must resolve and agree to TOL_FD_PAIR; the oracle is their
+    mean.  -> (dict ref -> H_fd | None, consistency, reason)"""
     worst = None
-    reason = 'fd_unresolved'
+    passed = []
     for attempt, hset in enumerate(H_REL_SETS):
         Gs, ends = [], []
         for hrel in hset:
@@ -483,11 +496,17 @@ def _fd_oracle(therm, phase, els, labels, cs0, X, T, R):
             R12 = (4.0 * D2 - D1) / 3.0
             worst = max(worst, _scaled_diff(R01, R12, R12))
             out[ref] = R12
-        if worst <= TOL_FD_CONSIST:
-            R.worst('fd_consistency', worst)
-            R.observe('fd_resolved_attempt_%d' % attempt)
-            return out, worst, 'fd_resolved'
-    return None, worst, reason
+        if worst > TOL_FD_CONSIST:
+            continue
+        for prev_attempt, prev, prev_worst in passed:
+            pair = max(_scaled_diff(prev[ref], out[ref], out[ref]) for ref in labels)
+            if pair <= TOL_FD_PAIR:
+                R.worst('fd_consistency', max(worst, prev_worst))
+                R.worst('fd_pair_agreement', pair)
+                R.observe('fd_resolved_sets_%d%d' % (prev_attempt, attempt))
+                return {ref: 0.5 * (prev[ref] + out[ref]) for ref in labels}, max(worst, prev_worst), 'fd_resolved'
+        passed.append((attempt, out, worst))
+    return None, worst, 'fd_unresolved'
 
 
 def _sym_mobility(therm, phase, cs, el):
@@ -733,13 +752,14 @@ MANIFEST = {
             'reference elements, FCC and BCC matrices, mobility and diffusivity databases), admitted only where a pycalphad '
             'global equilibrium over all database phases reports the matrix as the single stable phase. At every admitted '
             'point dMudX (for every reference element) is compared with Richardson-extrapolated central differences of the '
-            'local-equilibrium chemical potentials, checked for symmetry and positive definiteness; the public '
+            'local-equilibrium chemical potentials and with the analytic projected Hessian of the phase record, checked for '
+            'symmetry and positive definiteness; the public '
             'interdiffusivity must have a real positive spectrum, tracer diffusivities must be positive and equal R T times '
             'the symbolically evaluated database mobility of the same element, the binary interdiffusivity must satisfy the '
             'Darken identity, and the columns of the mobility matrix must sum to zero over substitutional rows.',
     'note': 'trusted: pycalphad equilibrium solver (admissibility filter and chemical potentials at x+-h), symengine '
             'evaluation of the mobility expressions; the universal quantifier is sampled; points whose finite differences '
-            'do not resolve to 1e-6 are counted and not judged for the curvature clause',
+            'do not resolve to 5e-7 are counted and not judged for the curvature clause',
     'technique': 'reference-model monitor (finite-difference and closed-form oracles) on return values of the public '
                  'thermodynamics/mobility functions at backend-certified single-phase states',
 }
